@@ -38,8 +38,15 @@ PACKAGES = {
     'E': (['N2', 'CO2', 'Methane'], {}, {}),
 }
 EOS_PACKAGES = {'E'}
+# variants: a second Thermo over the SAME compiled chemicals object as the base package, with another mixture
+# rule (ideal + excess energies) - what Stream._reset_thermo is given when a stream moves between units whose
+# property packages differ only in their models (C14: "property-package change")
+VARIANT_OF = {'Ax': 'A', 'Cx': 'C'}
+for _v, _b in VARIANT_OF.items():
+    PACKAGES[_v] = PACKAGES[_b]
 # receiver package -> packages whose chemicals it contains
-SUBPACKAGES = {'A': ['A', 'A2', 'B', 'C'], 'A2': ['A2', 'A', 'B', 'C'], 'B': ['B', 'C'], 'C': ['C'], 'E': ['E']}
+SUBPACKAGES = {'A': ['A', 'A2', 'B', 'C'], 'A2': ['A2', 'A', 'B', 'C'], 'B': ['B', 'C'], 'C': ['C'], 'E': ['E'],
+               'Ax': ['Ax'], 'Cx': ['Cx']}
 
 
 class Package:
@@ -47,6 +54,15 @@ class Package:
 
     def __init__(self, pid):
         tmo = env.import_thermosteam()
+        if pid in VARIANT_OF:
+            base = package(VARIANT_OF[pid])
+            self.__dict__.update(base.__dict__)
+            self.pid = pid
+            self.thermo = tmo.Thermo(base.compiled, mixture=tmo.IdealMixture.from_chemicals(
+                base.compiled, include_excess_energies=True))
+            assert self.thermo.chemicals is base.compiled
+            faults.wrap_mixture(self.thermo.mixture)
+            return
         ids, aliases, groups = PACKAGES[pid]
         chems = [chemical(i) for i in ids]
         self.pid = pid
@@ -124,6 +140,10 @@ def reset_globals():
     for pid in PACKAGES:
         if ('pkg', pid) in _cache:
             _cache[('pkg', pid)].compiled._index_cache.clear()
+    # conversion factors memoised per units object (a restarted process starts without them)
+    from thermosteam import units_of_measure as _uom
+    for u in _uom.AbsoluteUnitsOfMeasure._cache.values():
+        u.factor_cache.clear()
     tmo.settings.set_thermo(package('A').thermo)
 
 
